@@ -24,3 +24,8 @@ fn full_cdp_tracker() {
     assert!(!t.start_of_data(), "[C02] after a data word the packet is no longer at start of data");
     assert!(t.current_word_mem_pos() == pos + 64 + (k as u64 - 1) * slot, "[C07] set_data_seen does not move the word offset");
 }
+
+/// test-only access for harnesses of the parent module
+pub(crate) fn set_word_counter(t: &mut CdpTracker, n: u16) {
+    t.gbt_word_counter = n;
+}
